@@ -552,6 +552,17 @@ class RevIt(It):
         return self.inner.next()
 
 
+class ChainIt(It):
+    def __init__(self, a, b):
+        self.a, self.b = a, b
+
+    def next(self):
+        x = self.a.next()
+        if x is StopIteration:
+            return self.b.next()
+        return x
+
+
 class ZipIt(It):
     def __init__(self, a, b):
         self.a, self.b = a, b
@@ -1364,6 +1375,14 @@ def install_models(I):
         return Agg([], "tuple")
     M["alloc::vec::Vec::append"] = vec_append
 
+    def vec_extend_from_slice(I, a, f):
+        src = a[1] if isinstance(a[1], SlicePtr) else I.as_slice(a[1])
+        deref(a[0]).items.extend(src.values())
+        return Agg([], "tuple")
+    M["alloc::vec::Vec::extend_from_slice"] = vec_extend_from_slice
+    M["alloc::fmt::format"] = lambda I, a, f: Opaque("formatted-string")
+    M["core::hint::must_use"] = lambda I, a, f: a[0]
+
     # iterators
     def into_iter(I, a, f):
         return as_iter(I, a[0])
@@ -1381,6 +1400,8 @@ def install_models(I):
     M["core::iter::traits::iterator::Iterator::step_by"] = lambda I, a, f: StepIt(as_iter(I, a[0]), a[1])
     M["core::iter::traits::iterator::Iterator::rev"] = lambda I, a, f: RevIt(as_iter(I, a[0]))
     M["core::iter::traits::iterator::Iterator::zip"] = lambda I, a, f: ZipIt(as_iter(I, a[0]), as_iter(I, a[1]))
+    M["core::iter::traits::iterator::Iterator::chain"] = lambda I, a, f: ChainIt(as_iter(I, a[0]), as_iter(I, a[1]))
+    M["core::iter::traits::iterator::Iterator::cloned"] = M.get("core::iter::traits::iterator::Iterator::copied") or (lambda I, a, f: MapIt(as_iter(I, a[0]), FnRef({"fn": "@deref", "decl": "@deref", "res": "direct"}), I))
     M["core::iter::traits::iterator::Iterator::map"] = lambda I, a, f: MapIt(as_iter(I, a[0]), a[1], I)
     M["core::iter::traits::iterator::Iterator::flat_map"] = lambda I, a, f: FlatMapIt(as_iter(I, a[0]), a[1], I)
     M["core::iter::traits::iterator::Iterator::copied"] = lambda I, a, f: MapIt(as_iter(I, a[0]), FnRef({"fn": "@deref", "decl": "@deref", "res": "direct"}), I)
